@@ -52,15 +52,25 @@ Section Sound.
   Lemma map_pow xs k : map s2r (map (fun x => s_pow x k) xs) = map (fun x => x ^ k) (map s2r xs).
   Proof. rewrite !map_map. apply map_ext. intros x. apply s2r_pow, Hb. Qed.
 
+  Lemma map_pows_mon d i j pts : (i <= d)%nat -> (j <= d)%nat ->
+    map s2r (map (fun t => s_mul (nth i (fst t) (0, 0)%Z) (nth j (snd t) (0, 0)%Z))
+                 (map (fun p => (s_pows (fst p) d, s_pows (snd p) d)) pts))
+    = map (fun p => rmon p (i, j)) (map p2r pts).
+  Proof.
+    intros Hi Hj. rewrite !map_map. apply map_ext. intros p. cbn [fst snd].
+    rewrite (s2r_mul b Hb), !(s2r_pows b Hb) by assumption. reflexivity.
+  Qed.
+
   Theorem tri_rule_ok_sound d pts ws tn td : (0 < td)%Z -> tri_rule_ok b d pts ws tn td = true ->
     TriQuadExact d (IZR tn / IZR td) (map p2r pts) (map s2r ws).
   Proof.
     intros Htd H. unfold tri_rule_ok in H. rewrite !andb_true_iff in H. destruct H as [[[Hl Hm] Hw] Hp].
     apply Nat.eqb_eq in Hl. rewrite forallb_forall in Hm, Hw, Hp.
     split; [rewrite !map_length; exact Hl|]. split; [|split].
-    - intros i j Hij. apply in_monos in Hij. specialize (Hm _ Hij). unfold tri_mono_ok in Hm. cbn [fst snd] in Hm.
+    - intros i j Hij. pose proof Hij as Hle. apply in_monos in Hij. cbv zeta in Hm. specialize (Hm _ Hij). unfold tri_mono_ok in Hm. cbn [fst snd] in Hm.
       apply (s_close_frac_sound b Hb) in Hm; [| apply zfact_pos | exact Htd].
-      rewrite (s2r_dot b Hb), map_mon in Hm. unfold tri_moment.
+      rewrite (s2r_dot b Hb) in Hm.
+      rewrite (map_pows_mon d i j pts) in Hm by lia. unfold tri_moment.
       rewrite mult_IZR, !zfact_fact in Hm. exact Hm.
     - intros w Hin. apply in_map_iff in Hin. destruct Hin as [w' [<- Hin]]. specialize (Hw _ Hin).
       apply (s_ltb_sound b Hb) in Hw. rewrite (s2r_Z b) in Hw. exact Hw.
